@@ -355,3 +355,71 @@ Example C14_sites_example :
   snd (srun (ops ++ [SSite site_mrt_update p1; SSite site_mrt_state p1])) =
     [Some 1; Some 2; Some 3; Some 4; Some 5; None; Some 3; Some 2; Some 2].
 Proof. exact sites_example. Qed.
+
+(* ---- a router that connects again BEFORE the task of its previous connection has cleaned up (E2e/E2eModel.v, fifth part;
+   engine `e2e`, ops C2 / X2 / RL) ---- *)
+From RV Require E2e.E2eModel E2e.E2eProofs Pipe.PipeModel.
+
+(* The accept loop in ANY state of the pipeline: when the register holds an id for (unit, address), the connection it accepts
+   from that address gets THAT id - whatever sessions are live, in particular while a session of that id is still in
+   router_states -, the register is left as it is, nobody else's session moves. *)
+Theorem C14_accept_reuses_registered_id : forall w k rid rest,
+  reg_find_routers (PipeModel.w_reg w) (PipeModel.router_query (PipeModel.w_unit w) k) = rid :: rest ->
+  let w' := fst (PipeModel.wstep w (PipeModel.WConnect k)) in
+  PipeModel.w_routers w' !! k = Some (rid, BmpModel.sm_init) /\ PipeModel.w_reg w' = PipeModel.w_reg w /\
+  (forall j, j <> k -> PipeModel.w_routers w' !! j = PipeModel.w_routers w !! j).
+Proof. exact E2eProofs.reconnect_keeps_id_world. Qed.
+Print Assumptions C14_accept_reuses_registered_id.
+
+(* ... hence a router that opens a second connection while its first one is open (any state in which the register answers the
+   router's (unit, address) with exactly its id - C14_lookup_stable_router_hist: every disciplined history): same id, the old
+   connection parked under it, register unchanged, still ONE id for (unit, address), the unit's children unchanged. *)
+Theorem C14_reconnect_before_cleanup_keeps_id : forall st k rid s,
+  E2eModel.d_live st k = Some (rid, s) -> E2eModel.d_old st k = None ->
+  reg_find_routers (PipeModel.w_reg (E2eModel.es_w (E2eModel.ds_e st)))
+                   (PipeModel.router_query (PipeModel.w_unit (E2eModel.es_w (E2eModel.ds_e st))) k) = [rid] ->
+  let st' := E2eModel.d_step st (E2eModel.DSecond k) in
+  E2eModel.d_rid st' k = Some rid /\ E2eModel.d_old st' k = Some rid /\
+  PipeModel.w_reg (E2eModel.es_w (E2eModel.ds_e st')) = PipeModel.w_reg (E2eModel.es_w (E2eModel.ds_e st)) /\
+  reg_find_routers (PipeModel.w_reg (E2eModel.es_w (E2eModel.ds_e st')))
+                   (PipeModel.router_query (PipeModel.w_unit (E2eModel.es_w (E2eModel.ds_e st'))) k) = [rid] /\
+  reg_ids_for_parent (PipeModel.w_reg (E2eModel.es_w (E2eModel.ds_e st'))) (PipeModel.w_unit (E2eModel.es_w (E2eModel.ds_e st')))
+  = reg_ids_for_parent (PipeModel.w_reg (E2eModel.es_w (E2eModel.ds_e st))) (PipeModel.w_unit (E2eModel.es_w (E2eModel.ds_e st))).
+Proof. exact E2eProofs.reconnect_before_cleanup_keeps_id. Qed.
+Print Assumptions C14_reconnect_before_cleanup_keeps_id.
+
+(* seeded change C14-c2 as a model (reuse the id only when router_states no longer holds it): a router connects, connects again:
+   a second id, two register entries for one (unit, address), an extra child of the unit - where the code's loop gives id and
+   register back unchanged *)
+Theorem C14_reuse_only_when_not_live_refuted :
+  let w1 := fst (PipeModel.wstep PipeModel.world_init (PipeModel.WConnect 0)) in
+  let '(id2, r2) := E2eModel.accept_guarded w1 0 in
+  option_map fst (PipeModel.w_routers w1 !! 0%N) = Some 2%N /\ id2 = 3%N /\
+  length (reg_find_routers r2 (PipeModel.router_query (PipeModel.w_unit w1) 0)) = 2%nat /\
+  length (reg_ids_for_parent r2 (PipeModel.w_unit w1)) = 2%nat /\
+  option_map fst (PipeModel.w_routers (fst (PipeModel.wstep w1 (PipeModel.WConnect 0))) !! 0%N) = Some 2%N /\
+  PipeModel.w_reg (fst (PipeModel.wstep w1 (PipeModel.WConnect 0))) = PipeModel.w_reg w1.
+Proof. exact E2eProofs.reuse_only_when_not_live_refuted. Qed.
+Print Assumptions C14_reuse_only_when_not_live_refuted.
+
+(* known finding C14-old-task-removes-new-session: the old connection ends after the new session is up - the route the NEW
+   session announced (prefix 2) reads withdrawn where the property's reading has it active (the old session's route, prefix 1,
+   is withdrawn in both), and the connected router is not listed *)
+Theorem C14_old_task_removes_new_session_refuted :
+  let st := E2eModel.d_run (E2eModel.d_init E2eModel.SNone 0) (E2eProofs.d_example ++ [E2eModel.DOldEnds 0]) in
+  let x := (0%N, (0, 0, 0, 0, 1, 65001, 1)%N) in
+  E2eModel.d_rid st 0 = Some 2%N /\
+  map (fun e : N * bool * N => (snd (fst e), snd e)) (RibModel.rib_query (E2eModel.ru_rib (E2eModel.es_rib (E2eModel.ds_e st))) 0 2) = [(false, 4%N)] /\
+  PipeModel.s_rib (E2eModel.es_s (E2eModel.ds_e st)) !! (0%N, 2%N, x) = Some (true, 4%N) /\
+  PipeModel.s_rib (E2eModel.es_s (E2eModel.ds_e st)) !! (0%N, 1%N, x) = Some (false, 3%N) /\
+  E2eModel.d_listed_code st = 0%N /\ E2eModel.d_listed_spec st = 1%N.
+Proof. exact E2eProofs.old_task_removes_new_session_refuted. Qed.
+Print Assumptions C14_old_task_removes_new_session_refuted.
+
+Example C14_second_connection_example :
+  let st := E2eModel.d_run (E2eModel.d_init E2eModel.SNone 0) E2eProofs.d_example in
+  E2eModel.d_rid st 0 = Some 2%N /\ E2eModel.d_old st 0 = Some 2%N /\ E2eModel.d_listed_code st = 1%N /\
+  length (reg_find_routers (PipeModel.w_reg (E2eModel.es_w (E2eModel.ds_e st))) (PipeModel.router_query 1 0)) = 1%nat /\
+  map (fun e : N * bool * N => (snd (fst e), snd e)) (RibModel.rib_query (E2eModel.ru_rib (E2eModel.es_rib (E2eModel.ds_e st))) 0 1) = [(true, 3%N)] /\
+  map (fun e : N * bool * N => (snd (fst e), snd e)) (RibModel.rib_query (E2eModel.ru_rib (E2eModel.es_rib (E2eModel.ds_e st))) 0 2) = [(true, 4%N)].
+Proof. exact E2eProofs.second_connection_example. Qed.
